@@ -5,6 +5,7 @@
 set -e
 HERE="$(cd "$(dirname "$0")" && pwd)"
 python3 "$HERE/tools/gkf_translate.py" /repo "$HERE/coq/GkfGen.v" || echo "setup: translator failed, keeping the committed coq/GkfGen.v (C11 reports it)"
+python3 "$HERE/tools/dp_translate.py" /repo "$HERE/coq/DpGen.v" || echo "setup: DataParser translator failed, keeping the committed coq/DpGen.v (C11 reports it)"
 cd "$HERE/coq"
 ls *.v | sort | awk 'BEGIN{print "-Q . Gama"; print "-arg -w -arg -notation-overridden,-deprecated,-ambiguous-paths"} {print}' > _CoqProject
 coq_makefile -f _CoqProject -o Makefile
